@@ -1231,8 +1231,7 @@ def covered_attr_docs(a, msg):
         vals = dict(ds["elems"])
         if any(a["decls"][i]["min"] == 0 and a["decls"][i]["max"] == 1 and not vals.get(i) for i in nillable):
             return "C02-nillable-absent-rendered-nil"
-        if any("" in (vals.get(i) or []) for i in nillable):
-            return "C02-nillable-empty-read-as-nil"
+        # (an empty nillable element without xsi:nil is read as "" since repair c01g-06: no excuse any more)
     return None
 
 
@@ -1695,16 +1694,9 @@ def finding_nil_absent():
     return (msg is not None and covered_attr_docs(a, msg) == "C02-nillable-absent-rendered-nil", msg or "the document now comes back unchanged")
 
 
-def finding_nil_empty():
-    a = _nil_witness([""])
-    msg = oracle_attr_docs(a)
-    return (msg is not None and covered_attr_docs(a, msg) == "C02-nillable-empty-read-as-nil", msg or "the document now comes back unchanged")
-
-
 FINDINGS = {
     "C02-duplicate-name-sites": finding_duplicate_sites,
     "C02-nillable-absent-rendered-nil": finding_nil_absent,
-    "C02-nillable-empty-read-as-nil": finding_nil_empty,
     "C02-unprefixed-ref-unbound-target-namespace": finding_ns_heuristic,
     "C02-substitution-order-without-compound": finding_subst_order,
 }
